@@ -245,9 +245,9 @@ macro_rules! raw_prefixed {
     };
 }
 
-//@ props=C05,C06,C04:t,C19 tier=thorough bounds=String:all-byte-strings<=3 cap=900
+//@ props=C05,C06,C04:t,C19 tier=off bounds=String:all-byte-strings<=3 cap=900
 raw_prefixed!(c05_hostile_string3, String, 3, 5);
-//@ props=C05,C06,C04:t,C19 tier=thorough bounds=String:all-byte-strings<=7(full-5-byte-length-varint) cap=2400
+//@ props=C05,C06,C04:t,C19 tier=off bounds=String:all-byte-strings<=7(full-5-byte-length-varint) cap=2400
 raw_prefixed!(c05_hostile_string7, String, 7, 9);
 //@ props=C05,C06,C04:t,C19 tier=quick bounds=Vec<u8>:all-byte-strings<=3 cap=900
 raw_prefixed!(c05_hostile_vecu8_3, Vec<u8>, 3, 5);
